@@ -26,6 +26,15 @@ UseSite(site, n, P, R) ==
     [] site = "afterrecfn" -> <<Decl("f", <<P>>, Obj(<<Prop("t", Rec(R, Obj(<<Prop("k", Arr(Var(R)))>>))), Prop("v", Var(n))>>)),
                                 Let("u", App(Var("f"), <<Marker("p")>>))>>
 
+\* UL: the use statements come first, or last (after the declarations: the order of statements is immaterial)
+MainOfL(n, U, Q, D, P, R, site, UL) ==
+  LET uses == (IF U THEN <<Use("g")>> ELSE <<>>) \o (IF Q THEN <<UseAs("h", "q")>> ELSE <<>>)
+      rest == (IF D = 1 THEN <<Let(n, Marker("d"))>> ELSE <<>>)
+              \o UseSite(site, n, P, R)
+              \o (IF D = 2 THEN <<Let(n, Marker("d"))>> ELSE <<>>)
+              \o <<Res(Rel(Uri(<<Seg("")>>), <<Xfer("get", Cnt(<<>>, <<Var("u")>>))>>))>>
+  IN IF UL = "last" THEN rest \o uses ELSE uses \o rest
+
 MainOf(n, U, Q, D, P, R, site) ==
   (IF U THEN <<Use("g")>> ELSE <<>>)
   \o (IF Q THEN <<UseAs("h", "q")>> ELSE <<>>)
@@ -44,9 +53,18 @@ ProgOf(n, U, Q, D, P, R, site) ==
 Names == {"n", "concat"}
 Sites == {"top", "fn", "rec", "recfn", "qual", "afterrec", "afterrecfn"}
 
+ProgOfL(n, U, Q, D, P, R, site) ==
+  [main |-> "m1",
+   mods |-> [m \in {"m1", "g", "h"} |->
+              CASE m = "m1" -> MainOfL(n, U, Q, D, P, R, site, "last")
+                [] m = "g" -> ModG(n)
+                [] m = "h" -> ModH(n)]]
+
 ScopesFamily ==
   {ProgOf(n, U, Q, D, P, R, site) :
      n \in Names, U \in BOOLEAN, Q \in BOOLEAN, D \in 0..2, P \in {"n", "p"}, R \in {"n", "z"}, site \in Sites}
+  \cup {ProgOfL("n", U, Q, D, P, R, site) :
+     U \in BOOLEAN, Q \in BOOLEAN, D \in 0..2, P \in {"n", "p"}, R \in {"n", "z"}, site \in {"top", "fn", "qual", "afterrecfn"}}
 
 ScopesSmall ==
   {ProgOf("n", U, Q, D, P, R, site) :
